@@ -154,13 +154,20 @@ Definition add_file (p : bytes) : M unit :=
 Definition cmd_add (c : ctx) (args : list bytes) : M (list bytes) :=
   guard (negb (is_nil args)) ;;;
   (w <- getw ;;
-   guard (forallb (fun a => exists_on_disk w a || tracked w a) args)) ;;;
+   guard (forallb (fun a => exists_on_disk w a || tracked w a || is_dir (idx_of w) a) args)) ;;;
   iterM (fun a =>
     w <- getw ;;
     if ignored w (x_pats c) a then ret tt
     else match wt_stat w a with
          | SNone | SNotDir =>
-             i <- of_opt (idx_delete (idx_of w) a) ;; emit (ESetIndex i)
+             if tracked w a then
+               i <- of_opt (idx_delete (idx_of w) a) ;; emit (ESetIndex i)
+             else if is_dir (idx_of w) a then
+               (* a tracked directory that no longer exists: every tracked path beneath it is
+                  unstaged, one index write each (as rm does) *)
+               iterM (fun q => w' <- getw ;; i <- of_opt (idx_delete (idx_of w') q) ;; emit (ESetIndex i))
+                     (map e_path (entries_by_dir (idx_of w) a))
+             else fail
          | SDir =>
              iterM (fun f => w' <- getw ;; if ignored w' (x_pats c) f then ret tt else add_file f)
                    (files_under w a)
